@@ -377,7 +377,8 @@ def o_tucker_options(case):
         eff_f.append(f)
         eff_m.append(m)
     dense = ref.tucker_dense(core, eff_f, eff_m)
-    scale = _tucker_scale(core, fs_all, case["ranks"])
+    # only the factors that are applied enter the magnitude bound (a skipped all-zero factor must not zero it)
+    scale = _tucker_scale(core, eff_f, [case["ranks"][m] for m in eff_m])
 
     def passed():
         # with transpose_factors the caller holds F^H (rank x size) and asks for conj(F^H)^T = F
